@@ -40,6 +40,47 @@ CHECKS = {
             "set of changed files == ref_select_paths, nothing outside changes, changeset paths == changed files.",
             "fnmatch semantics on relative paths; default excludes apply iff no --path-exclude given (weakest reading).",
             "3 C05"),
+    "C06": (MC, "exhaustive enumeration of reported-site subsets on multi-site programs, with decoys, against the reference run",
+            "For every SAST seed a program with n equally fixable copies of the site (column offsets 0/4/8) is run with ALL 2^n subsets of copies "
+            "reported in a generated tool-format file (one file per subset, decoys: foreign rule at a site, foreign file, neighbouring line, "
+            "resolved/closed status, empty result file); copies rewritten == copies reported and change entries carry exactly own-rule findings.",
+            "Finding locations are the upstream authors' result files relocated by exact shifts; copies are told apart by marker statements.",
+            "3 C06"),
+    "C08": ("exploration", "bounded-exhaustive differential execution of generated closed-program families",
+            "For each refactoring codemod a closed-program family (boolean trees over call kinds, operator x operand-kind tables, argument "
+            "kinds, edge values) is generated, every member is transformed by the real run() and original and rewritten program are executed; "
+            "observation = stdout and exception type.",
+            "Decided only for the generated families; some families of the property (imports, abstractproperty, SQL) are not generated yet.",
+            "3 C08"),
+    "C13": (MC, "exhaustive enumeration of line-pattern subsets per codemod with measured site lines",
+            "For every codemod with single-line sites: n-site file, ALL subsets of site lines excluded / included, relative and globbed spellings, "
+            "root and sub-directory, one run per (codemod, mode, spelling) with one file per subset; rewritten sites == permitted sites and change "
+            "line numbers == rewritten lines.",
+            "Site lines are measured by a pattern-free reference run; codemods whose construct spans several lines are listed as not usable.",
+            "3 C13"),
+    "C14": (MC, "explicit enumeration of manifest contents x shapes x dependencies x manifest subsets, judged by independent readers",
+            "Per-format content alphabets (requirement-line sequences, section shapes, the package already present under other spellings / versions), "
+            "4 file shapes, subsets of manifest kinds, two codemods needing the same package in one run; the real dependency update is applied twice "
+            "(idempotence) through the public classes and end to end; stdlib/packaging readers decide validity, completeness and duplicates.",
+            "A manifest the independent reader cannot parse beforehand is out of scope; 'must be updated' only for plain LF manifests.",
+            "3 C14"),
+    "C16": (MC, PS + "documented-delta oracle on token multisets and call arguments",
+            "For the 23 hardening codemods every program of the program space (argument shape, call layout and import style dimensions included) is "
+            "checked: added / removed identifiers, attributes, keywords, constants and imports must lie in the codemod's documented delta and "
+            "surviving call arguments (keywords, starred, positional count) must be kept in order.",
+            "Delta specs transcribed from the codemods' documentation (DESIGN.md Appendix B); sets of token kinds, not counts per site.",
+            "3 C16"),
+    "C18": (MC, PS + "detector/transformer agreement using the codemod's own detector answers",
+            "For the 22 rule-detected codemods the answers of the codemod's own semgrep run are recorded (harness tap) before and after; a flagged "
+            "program that is not of a declined shape must be rewritten or failed, and nothing is flagged inside rewritten lines afterwards.",
+            "Declined shapes per DESIGN.md Appendix C; candidates are re-executed alone in fresh worker runs twice.",
+            "3 C18"),
+    "C19": (MC, "explicit enumeration of texts / XML documents x transformers x finding sets on the real pipeline classes",
+            "Regex: all line sequences up to length n over 4 line kinds x EOL shapes x pattern forms x every finding subset x dry-run. XML: documents from a "
+            "child alphabet (attributes, namespaces, entities, CDATA, comments, PIs, nested, mixed) x prologs x 6 transformer configurations x finding "
+            "subsets; information-set comparison via expat, change entries, dry-run and diff fidelity.",
+            "Whitespace-only character data, attribute order/quoting and an added XML declaration are insignificant.",
+            "3 C19"),
     "C07": (MC, PS + "history BFS depth 2 (run, re-run) with fixed-point oracle",
             "For every program of the program space: s1 = K(P), s2 = K(s1) with identical options and result files through the real run(); "
             "s2 == s1 bytewise and the second report has no changeset.",
